@@ -38,7 +38,7 @@ T3 == << "local", "x", "=", "1", "x", "+=", "1", "x", "..=", "'s'",
          "return", "x", "//", "0b11", ",", "1_000" >>
 \* T4: separators after LAST statements (`return 1;`, `break;`), operands touching `..`, nested closing brackets
 T4 == << "do", "return", "1", ";", "end", "while", "a", "do", "break", ";", "end",
-         "a", "=", "b", "..", "2", "..", "c", "..", "'s'", "a", "=", "t", "[", "t", "[", "1", "]", "]", ";",
+         "a", "=", "b", "..", "2", "..", "c", "..", "'s'", "a", "=", "0xA", "..", "a", "..", "0xf", "..", "1_0", "a", "=", "t", "[", "t", "[", "1", "]", "]", ";",
          "if", "a", "then", "return", ";", "end",
          "a", "=", "1e999", "(", "f", ")", "(", "a", ")",       \* a numeral ends its statement: `(f)(a)` is the next one
          "return", "a", ",", "b", ";" >>
